@@ -425,7 +425,7 @@ def fusion_cases(ctx):
     for n, length, special in fams:
         nsyms = len(supports(n)) + (min(n, 2) + 1 if special else 0)
         total = nsyms**length
-        budget = 6000 if ctx.thorough else 700
+        budget = 4000 if ctx.thorough else 700
         p = min(1.0, budget / total)
         for spec in exhaustive_specs(ctx, n, length, special):
             if rng.random() < p and valid_measurements(spec):
